@@ -51,9 +51,18 @@ def run(chk, replay=None):
             if not gres.ok:
                 raise lib.ToolError("MC_Desugar: AstSem disagrees with the documented desugaring (specification inconsistency)\n" + gres.out[-3000:])
             chk.tlc_stats(gres)
+            seen, rows = set(), []
+            for row in lib.read_ndjson(gout):
+                key = " ".join(row["toks"])
+                if key not in seen:
+                    seen.add(key)
+                    rows.append(row)
+            chk.add("enumerated_programs_total", len(rows))
+            if quick:      # every prefix of every token sequence is a program; quick replays a fixed 1-in-6 slice per flavour
+                rows = rows[(0 if flavour == "ne" else 3)::6]
             enumerated = [{"id": 500000 + j, "cfg": {"int_regs": gen_progs.INT_REGS + [1020], "float_regs": gen_progs.FLOAT_REGS, "count_jmp": cj},
                            "vars": [{"id": "r1000", "ty": "i"}, {"id": "r1001", "ty": "i"}], "body": row["body"]}
-                          for j, row in enumerate(lib.read_ndjson(gout))]
+                          for j, row in enumerate(rows)]
             chk.add("enumerated_programs", len(enumerated))
             progs = enumerated + gen_progs.block_programs(chk.seed * 1000 + (1 if flavour == "ne" else 2), n, cj)
             progs += gen_progs.block_programs(chk.seed * 1000 + 7, n // 5, cj, start_id=n + 1, diff_labels=True)
